@@ -239,8 +239,17 @@ type fdaServer struct {
 }
 
 // echo server on a listener made by CreateListener
-func (x *fdaCtx) startServer(network, addr string, closeAfterEcho bool, opts ...Option) *fdaServer {
+func (x *fdaCtx) startServer(network, addr string, closeAfterEcho bool, prepare func(Connection)) *fdaServer {
 	s := &fdaServer{served: make(chan error, 1)}
+	var opts []Option
+	// every accepted descriptor becomes a connection in onAccept → init → OnPrepare: that is one more lifecycle
+	opts = append(opts, WithOnPrepare(func(c Connection) context.Context {
+		x.kind("accepted 3")
+		if prepare != nil {
+			prepare(c)
+		}
+		return context.Background()
+	}))
 	ln, err := CreateListener(network, addr)
 	if err != nil {
 		x.failf("CreateListener: %v", err)
@@ -277,14 +286,14 @@ func (x *fdaCtx) startServer(network, addr string, closeAfterEcho bool, opts ...
 }
 
 func (x *fdaCtx) shutdown(s *fdaServer) {
-	ctx, cancel := context.WithTimeout(context.Background(), 3*time.Second)
+	ctx, cancel := context.WithTimeout(context.Background(), 10*time.Second)
 	defer cancel()
 	if err := s.evl.Shutdown(ctx); err != nil {
 		x.failf("Shutdown: %v", err)
 	}
 	select {
 	case <-s.served:
-	case <-time.After(2 * time.Second):
+	case <-time.After(8 * time.Second):
 		x.failf("Serve did not return")
 	}
 }
@@ -298,7 +307,7 @@ func (x *fdaCtx) echo(c Connection, n int) bool {
 		x.failf("client write: %v", err)
 		return false
 	}
-	c.SetReadTimeout(2 * time.Second)
+	c.SetReadTimeout(8 * time.Second)
 	got, err := c.Reader().Next(n)
 	if err != nil {
 		x.failf("client read: %v", err)
@@ -337,7 +346,7 @@ func fdaEchoScenario(network string, serverCloses bool, nconn int) func(x *fdaCt
 		x.know("conn_viaServer", false)
 		x.know("conn_detach", false)
 		x.know("prepare_closes", false)
-		s := x.startServer(network, addr, serverCloses)
+		s := x.startServer(network, addr, serverCloses, nil)
 		if s == nil {
 			return
 		}
@@ -354,25 +363,24 @@ func fdaEchoScenario(network string, serverCloses bool, nconn int) func(x *fdaCt
 			}
 			go func() {
 				defer wg.Done()
-				c, err := DialConnection(network, s.ln.Addr().String(), time.Second)
+				c, err := DialConnection(network, s.ln.Addr().String(), 5*time.Second)
 				if err != nil {
 					x.dialFailed(k)
 					x.failf("dial: %v", err)
 					return
 				}
 				atomic.AddInt32(&dialed, 1)
-				x.kind("accepted 3")
 				x.echo(c, size)
 				if serverCloses {
 					// wait for the peer's close to arrive, then close our side
-					fdaWait(func() bool { return !c.IsActive() }, 2*time.Second)
+					fdaWait(func() bool { return !c.IsActive() }, 8*time.Second)
 				}
 				c.Close()
 				c.Close() // a second Close must be harmless
 			}()
 		}
 		wg.Wait()
-		if !fdaWait(func() bool { return atomic.LoadInt32(&s.closed) == atomic.LoadInt32(&dialed) }, 3*time.Second) {
+		if !fdaWait(func() bool { return atomic.LoadInt32(&s.closed) >= atomic.LoadInt32(&dialed) }, 8*time.Second) {
 			x.failf("server side connections closed: %d of %d", atomic.LoadInt32(&s.closed), dialed)
 		}
 		x.shutdown(s)
@@ -388,30 +396,29 @@ func fdaShutdownScenario(x *fdaCtx) {
 	x.know("ln_viaServer", true)
 	x.know("conn_detach", false)
 	x.know("prepare_closes", false)
-	s := x.startServer("tcp", "127.0.0.1:0", false)
+	s := x.startServer("tcp", "127.0.0.1:0", false, nil)
 	if s == nil {
 		return
 	}
 	var conns []Connection
 	for i := 0; i < nconn; i++ {
 		k := x.kind("dialTCP 3")
-		c, err := DialConnection("tcp", s.ln.Addr().String(), time.Second)
+		c, err := DialConnection("tcp", s.ln.Addr().String(), 5*time.Second)
 		if err != nil {
 			x.dialFailed(k)
 			x.failf("dial: %v", err)
 			continue
 		}
-		x.kind("accepted 3")
 		x.echo(c, 100)
 		conns = append(conns, c)
 	}
-	fdaWait(func() bool { return atomic.LoadInt32(&s.accepted) == int32(len(conns)) }, 2*time.Second)
+	fdaWait(func() bool { return atomic.LoadInt32(&s.accepted) == int32(len(conns)) }, 8*time.Second)
 	x.shutdown(s)
-	if !fdaWait(func() bool { return atomic.LoadInt32(&s.closed) == int32(len(conns)) }, 3*time.Second) {
+	if !fdaWait(func() bool { return atomic.LoadInt32(&s.closed) == int32(len(conns)) }, 8*time.Second) {
 		x.failf("server side connections closed: %d of %d", atomic.LoadInt32(&s.closed), len(conns))
 	}
 	for _, c := range conns {
-		fdaWait(func() bool { return !c.IsActive() }, 2*time.Second)
+		fdaWait(func() bool { return !c.IsActive() }, 8*time.Second)
 		c.Close()
 	}
 }
@@ -421,27 +428,25 @@ func fdaPrepareCloseScenario(x *fdaCtx) {
 	x.usePollManager()
 	x.kind("createListener 2")
 	kd := x.kind("dialTCP 3")
-	x.kind("accepted 3")
 	x.know("ln_viaServer", true)
 	x.know("conn_viaServer", false)
 	x.know("conn_detach", false)
 	var prepared int32
-	s := x.startServer("tcp", "127.0.0.1:0", false, WithOnPrepare(func(c Connection) context.Context {
+	s := x.startServer("tcp", "127.0.0.1:0", false, func(c Connection) {
 		atomic.AddInt32(&prepared, 1)
 		c.Close()
-		return context.Background()
-	}))
+	})
 	if s == nil {
 		return
 	}
-	c, err := DialConnection("tcp", s.ln.Addr().String(), time.Second)
-	if !fdaWait(func() bool { return atomic.LoadInt32(&prepared) == 1 }, 2*time.Second) {
+	c, err := DialConnection("tcp", s.ln.Addr().String(), 5*time.Second)
+	if !fdaWait(func() bool { return atomic.LoadInt32(&prepared) == 1 }, 8*time.Second) {
 		x.failf("OnPrepare did not run")
 	}
 	if err != nil {
 		x.dialFailed(kd) // the server's close can arrive while the client still waits for the handshake
 	} else {
-		fdaWait(func() bool { return !c.IsActive() }, 2*time.Second)
+		fdaWait(func() bool { return !c.IsActive() }, 8*time.Second)
 		c.Close()
 	}
 	x.shutdown(s)
@@ -476,8 +481,10 @@ func fdaFDConnCloseScenario(x *fdaCtx) {
 		return
 	}
 	syscall.Write(b, []byte("hello"))
-	c.SetReadTimeout(time.Second)
-	if p, err := c.Reader().Next(5); err != nil || string(p) != "hello" {
+	// (no read timeout here: a timed-out read on a connection without addresses panics, defect D8 of property C07)
+	if !fdaWait(func() bool { return c.Reader().Len() >= 5 }, 8*time.Second) {
+		x.failf("fdconn: data did not arrive")
+	} else if p, err := c.Reader().Next(5); err != nil || string(p) != "hello" {
 		x.failf("fdconn read: %v", err)
 	}
 	var wg sync.WaitGroup
@@ -567,18 +574,17 @@ func fdaDetachScenario(x *fdaCtx) {
 	fdaClose(b)
 
 	// a dialed connection, detached by the client
-	s := x.startServer("tcp", "127.0.0.1:0", false)
+	s := x.startServer("tcp", "127.0.0.1:0", false, nil)
 	if s == nil {
 		return
 	}
-	dc, err := DialConnection("tcp", s.ln.Addr().String(), time.Second)
+	dc, err := DialConnection("tcp", s.ln.Addr().String(), 5*time.Second)
 	if err != nil {
 		x.dialFailed(kd)
 		x.failf("dial: %v", err)
 		x.shutdown(s)
 		return
 	}
-	x.kind("accepted 3")
 	x.echo(dc, 64)
 	fd := dc.(Conn).Fd()
 	if err := dc.(*TCPConnection).Detach(); err != nil {
@@ -586,7 +592,7 @@ func fdaDetachScenario(x *fdaCtx) {
 	}
 	fdaMark("T %d", fd)
 	fdaClose(fd)
-	if !fdaWait(func() bool { return atomic.LoadInt32(&s.closed) == 1 }, 3*time.Second) {
+	if !fdaWait(func() bool { return atomic.LoadInt32(&s.closed) == 1 }, 8*time.Second) {
 		x.failf("server side connection not closed")
 	}
 	x.shutdown(s)
@@ -767,7 +773,7 @@ func fdaPollerScenario(x *fdaCtx) {
 			if err != nil {
 				x.failf("Wait: %v", err)
 			}
-		case <-time.After(2 * time.Second):
+		case <-time.After(8 * time.Second):
 			x.failf("poller did not exit")
 		}
 	}
@@ -985,8 +991,8 @@ func VerifFdAuditMain(args []string) int {
 	time.Sleep(2 * time.Millisecond)
 
 	x := &fdaCtx{seed: seed, rnd: rand.New(rand.NewSource(seed))}
-	watchdog := time.AfterFunc(20*time.Second, func() {
-		fdaMark("X watchdog: scenario did not finish in 20s")
+	watchdog := time.AfterFunc(60*time.Second, func() {
+		fdaMark("X watchdog: scenario did not finish in 60s")
 		os.Exit(3)
 	})
 	defer watchdog.Stop()
@@ -1030,7 +1036,7 @@ func VerifFdAuditMain(args []string) int {
 	if sc.name == "rlimit-create-listener" || sc.name == "rlimit-manager-run" {
 		fdaWait(same, 100*time.Millisecond) // a descriptor is expected to stay (known finding): do not wait long
 	} else {
-		fdaWait(same, 2*time.Second)
+		fdaWait(same, 8*time.Second)
 	}
 	if x.incomplete {
 		fdaMark("E open")
